@@ -321,6 +321,86 @@ func checkC18(p *core.Program, r *core.Report) {
 	r.Check(transRet, "R2", "getText/non-empty-translation-wins", p.Pos(getText.Pos()), "first non-empty translation returned with its language", "no return of a non-empty translation found")
 	r.Check(afterLoop, "R2", "getText/native-after-loop", p.Pos(getText.Pos()), "native text after the loop", "the native text is not the final fallback")
 
+	// a translation that is present but holds only one empty string counts as missing (the editor saves those): the
+	// lookup behind GetItemTranslation returns the stored slice only on paths that tested its single element against ""
+	{
+		var lookupFns []*ssa.Function
+		if gi := p.Method("flows/definition", "localization", "GetItemTranslation"); gi != nil {
+			seen := map[*ssa.Function]bool{gi: true}
+			work := []*ssa.Function{gi}
+			for len(work) > 0 && len(seen) < 8 {
+				f := work[0]
+				work = work[1:]
+				lookupFns = append(lookupFns, f)
+				for _, cs := range core.Calls(f, false) {
+					if cf := cs.Common().StaticCallee(); cf != nil && !seen[cf] && core.RelPkg(core.FuncPkgPath(cf)) == "flows/definition" && len(cf.Blocks) > 0 {
+						seen[cf] = true
+						work = append(work, cf)
+					}
+				}
+			}
+		}
+		nStored, okEmpty := 0, true
+		where := ""
+		for _, f := range lookupFns {
+			for _, ret := range core.Returns(f) {
+				if len(ret.Results) != 1 {
+					continue
+				}
+				// the stored slice: result of a map lookup
+				var stored ssa.Value
+				v := core.StripConv(ret.Results[0])
+				if ex, ok := v.(*ssa.Extract); ok {
+					if lk, ok := ex.Tuple.(*ssa.Lookup); ok && lk.CommaOk && ex.Index == 0 {
+						stored = ex
+					}
+				} else if lk, ok := v.(*ssa.Lookup); ok {
+					stored = lk
+				}
+				if stored == nil {
+					continue
+				}
+				if _, isSlice := stored.Type().Underlying().(*types.Slice); !isSlice {
+					continue
+				}
+				nStored++
+				tested := false
+				for _, ce := range core.MayConds(ret.Block()) {
+					bo, ok := ce.Cond.(*ssa.BinOp)
+					if !ok || (bo.Op != token.EQL && bo.Op != token.NEQ) {
+						continue
+					}
+					var other ssa.Value
+					if sc, ok := core.ConstString(bo.Y); ok && sc == "" {
+						other = bo.X
+					} else if sc, ok := core.ConstString(bo.X); ok && sc == "" {
+						other = bo.Y
+					}
+					if other == nil {
+						continue
+					}
+					if ld, ok := other.(*ssa.UnOp); ok {
+						if ia, ok := ld.X.(*ssa.IndexAddr); ok && ia.X == stored {
+							if k, isC := core.ConstInt(ia.Index); isC && k == 0 {
+								tested = true
+							}
+						}
+					}
+				}
+				if !tested {
+					okEmpty = false
+					where = core.FuncName(f) + " at " + p.Pos(ret.Pos())
+				}
+			}
+		}
+		if nStored == 0 {
+			r.Unknown("R2", "translation-lookup/single-empty-string-is-missing", "flows/definition/localization.go", "no return of a stored translation found behind GetItemTranslation")
+		} else {
+			r.Check(okEmpty, "R2", "translation-lookup/single-empty-string-is-missing", "flows/definition/localization.go", "the stored translation is returned only after its single element was compared with \"\"",
+				"a stored translation is returned ("+where+") without testing whether it is the single empty string the editor saves for an empty translation: getText would accept it as non-empty and send or compare empty text instead of falling back")
+		}
+	}
+
 	// ------------------------------------------------------------------ R3 keys
 	c18R3(p, r)
 
